@@ -304,6 +304,7 @@ func (c *stratChecker) AfterRequest(x *Exec, idx int, h *HistItem, res *RunResul
 		fc := c.fc[key]
 		if fc == nil {
 			fc = newFileChecker(pkg, h.Req.Output, x.S.First)
+			fc.retriesPossible = x.S.Rates["lost_ack"] > 0 || x.S.Rates["io_err_write"] > 0
 			c.fc[key] = fc
 		}
 		for _, other := range c.fc {
